@@ -19,7 +19,8 @@ MANIFEST = {
 RULE = ("perr: random scripts of parser/scanner/sub-parser error events (clustered lines, <= 70 events, AllErrors on/off) through the real "
         "parser.error; adv: random scripts of next/advance(stmtStart|declStart|exprEnd) with bursts of repeated calls over the real scanner's tokens "
         "of mutated corpus files; fuzz: token-level mutants (delete/duplicate/swap/replace/insert XGo tokens, truncate, splice, byte flips, NUL, "
-        "invalid UTF-8, repeated regions) of the .go/.xgo/.gop/.gox/.spx/.gsh/.gmx files of the tree x 21 entry/mode combinations, every prefix of "
+        "invalid UTF-8, repeated regions) of grammar-directed XGo expression/statement fragments (lambdas, mixed-element literals, comprehensions, "
+        "errwrap, range exprs, env, domain text, command calls, tuples, labels/branches everywhere; unchanged, wrapped as files, and mutated) and of the .go/.xgo/.gop/.gox/.spx/.gsh/.gmx files of the tree x 21 entry/mode combinations, every prefix of "
         "small files, fixed seeds, deep nesting; non-trivial = distinct script/case line with >= 2 events or > 3 tokens")
 
 
